@@ -19,7 +19,7 @@ Space (one value per dimension; index 0 = default):
            reason line) | HTTPError family | redirects | HTTPStatus | cookies | multi-value headers |
            uncaught exception | partial resource (405/OPTIONS) | no matching route (404)
   method   GET POST PUT HEAD DELETE OPTIONS
-  path     /a / /a/ /%C3%A9 /%E2%82 /%FF /a%2Fb /a+b // /a/b /a%20b /A /a% /a%zz /a/b/  (routes /, /a, /a/{x}, /{x} + sink)
+  path     /a / /a/ /%C3%A9 /%E2%82 /%FF /a%2Fb /a+b // /a/b /a%20b /A /a% /a%zz /a/b/ /a// ///  (routes /, /a, /a/{x}, /{x} + sink)
   query    '' a=1 a=1&a=2 a=1,2 a= %zz a=%C3%A9 a=%FF = a=1&b=true a=+x a a=1&&b a=%26 a=,  b=0&a=x
   headers  16 header sets (repeated / mixed-case names, Accept, Range, If-*-Match, dates, Forwarded,
            X-Forwarded-*, Cookie with duplicate names, auth/referer/expect, explicit Host, malformed
@@ -79,7 +79,8 @@ warnings.filterwarnings('ignore', category=falcon.util.deprecation.DeprecatedWar
 # alphabets
 # ---------------------------------------------------------------------------
 METHODS = ['GET', 'POST', 'PUT', 'HEAD', 'DELETE', 'OPTIONS']
-PATHS = ['/a', '/', '/a/', '/%C3%A9', '/%E2%82', '/%FF', '/a%2Fb', '/a+b', '//', '/a/b', '/a%20b', '/A', '/a%', '/a%zz', '/a/b/']
+PATHS = ['/a', '/', '/a/', '/%C3%A9', '/%E2%82', '/%FF', '/a%2Fb', '/a+b', '//', '/a/b', '/a%20b', '/A', '/a%', '/a%zz', '/a/b/',
+         '/a//', '///']
 BODIES = [('none', None, None), ('empty', b'', None), ('json', b'{"k": "v\\u00e9", "n": [1, 2]}', 'application/json'),
           ('raw3', b'abc', 'application/octet-stream'), ('form', b'a=5&c=6', 'application/x-www-form-urlencoded'),
           ('badjson', b'{"k": ', 'application/json')]
@@ -96,7 +97,7 @@ OPTS = [(s, k, c) for s in (False, True) for k in (True, False) for c in (False,
 OPS = ['digest', 'media', 'text', 'data201', 'media-resp', 'stream-len', 'stream-nolen', 'status204', 'status204-custom',
        'err404', 'err400-headers', 'err-invalid-header', 'err422', 'err405', 'redir301', 'redir302', 'redir303',
        'redir307', 'redir308', 'httpstatus', 'cookies', 'multi-header', 'boom', 'resp-attrs', 'partial', 'noroute',
-       'empty-data-media', 'empty-text-data', 'empty-media-stream']
+       'empty-data-media', 'empty-text-data', 'empty-media-stream', 'stream-file']
 
 
 def names(seed):
@@ -254,6 +255,33 @@ def _logic(op, nm, is_async, req, resp, kw):
             resp.set_stream(stream, 5)
         else:
             resp.stream = stream
+        resp.content_type = 'application/octet-stream'
+    elif op == 'stream-file':
+        # a file-like stream that, like a pipe or a socket, returns fewer bytes than asked for before it is exhausted
+        # (read() -> b'' is the only end-of-file signal); with and without close()
+        pieces = [b'first,', b'second,', b'third\xff']
+
+        class _F:
+            def __init__(self):
+                self.left = list(pieces)
+
+            def _next(self, size):
+                if not self.left:
+                    return b''
+                piece = self.left.pop(0)
+                if size is not None and 0 <= size < len(piece):
+                    self.left.insert(0, piece[size:])
+                    piece = piece[:size]
+                return piece
+        if is_async:
+            class F(_F):
+                async def read(self, size=-1):
+                    return self._next(size)
+        else:
+            class F(_F):
+                def read(self, size=-1):
+                    return self._next(size)
+        resp.stream = F()
         resp.content_type = 'application/octet-stream'
     elif op == 'empty-data-media':
         # an explicitly EMPTY higher-precedence body source still wins (text > data > media > stream)
